@@ -63,6 +63,9 @@ pub struct RefResult {
     pub touched: BTreeSet<(String, String)>,
     /// object types of nodes that were entered
     pub entered: BTreeSet<String>,
+    /// object types of nodes that were entered and for which at least one response key was collected
+    /// (an object completed as `{}` because no fragment applied is not in this set)
+    pub entered_nonempty: BTreeSet<String>,
     pub vars: Vars,
     /// every completed position (fields and list items) with its declared type
     pub positions: Vec<(String, Ty)>,
@@ -208,6 +211,9 @@ impl<'a> Exec<'a> {
         self.out.entered.insert(object_ty.to_string());
         let (grouped, dup_spreads) = collect_fields_ex(self.ts, self.doc, &self.vars, object_ty, sels);
         self.out.merged_groups += dup_spreads;
+        if !grouped.is_empty() {
+            self.out.entered_nonempty.insert(object_ty.to_string());
+        }
         let mut map = Map::new();
         let mut bubbles: Vec<usize> = vec![];
         let parent_path = path_str(path);
